@@ -526,3 +526,120 @@ where
     );
     p.exchange().await
 }
+
+/// What a scripted forwarder side hands to the pipe
+pub enum UdpPeerEvent {
+    /// A datagram from a peer (labelled peer -> client)
+    Datagram(UdpOut),
+    /// The flow (peer -> client labels) was closed by the forwarder
+    Close(SocketAddr, SocketAddr),
+}
+
+/// Scripted forwarder side of the UDP multiplexer (mirror of `forwarder::UdpMultiplexer`)
+#[async_trait]
+pub trait VUdpPeer: Send + Sync {
+    /// `UdpDatagramPipeShared::on_new_udp_connection`
+    async fn on_new(&self, source: SocketAddr, destination: SocketAddr) -> io::Result<()>;
+    /// `UdpDatagramPipeShared::on_connection_closed` (labels as the pipe passes them)
+    fn on_closed(&self, source: SocketAddr, destination: SocketAddr);
+    /// next event from the peers; `Err` ends the multiplexer
+    async fn read(&self) -> io::Result<UdpPeerEvent>;
+    /// a client datagram to send: `Ok(true)` = sent, `Ok(false)` = dropped
+    async fn write(&self, datagram: UdpIn) -> io::Result<bool>;
+}
+
+struct PeerShared(std::sync::Arc<dyn VUdpPeer>);
+struct PeerSource(std::sync::Arc<dyn VUdpPeer>, log_utils::IdChain<u64>);
+struct PeerSink(std::sync::Arc<dyn VUdpPeer>);
+
+#[async_trait]
+impl forwarder::UdpDatagramPipeShared for PeerShared {
+    async fn on_new_udp_connection(&self, meta: &downstream::UdpDatagramMeta) -> io::Result<()> {
+        self.0.on_new(meta.source, meta.destination).await
+    }
+
+    fn on_connection_closed(&self, meta: &forwarder::UdpDatagramMeta) {
+        self.0.on_closed(meta.source, meta.destination)
+    }
+}
+
+#[async_trait]
+impl datagram_pipe::Source for PeerSource {
+    type Output = forwarder::UdpDatagramReadStatus;
+
+    fn id(&self) -> log_utils::IdChain<u64> {
+        self.1.clone()
+    }
+
+    async fn read(&mut self) -> io::Result<forwarder::UdpDatagramReadStatus> {
+        Ok(match self.0.read().await? {
+            UdpPeerEvent::Datagram(d) => {
+                forwarder::UdpDatagramReadStatus::Read(forwarder::UdpDatagram {
+                    meta: forwarder::UdpDatagramMeta {
+                        source: d.source,
+                        destination: d.destination,
+                    },
+                    payload: d.payload,
+                })
+            }
+            UdpPeerEvent::Close(source, destination) => forwarder::UdpDatagramReadStatus::UdpClose(
+                forwarder::UdpDatagramMeta {
+                    source,
+                    destination,
+                },
+                io::Error::from(io::ErrorKind::ConnectionRefused),
+            ),
+        })
+    }
+}
+
+#[async_trait]
+impl datagram_pipe::Sink for PeerSink {
+    type Input = downstream::UdpDatagram;
+
+    async fn write(&mut self, d: downstream::UdpDatagram) -> io::Result<datagram_pipe::SendStatus> {
+        let sent = self
+            .0
+            .write(UdpIn {
+                source: d.meta.source,
+                destination: d.meta.destination,
+                app_name: d.meta.app_name,
+                payload: d.payload,
+            })
+            .await?;
+        Ok(if sent {
+            datagram_pipe::SendStatus::Sent
+        } else {
+            datagram_pipe::SendStatus::Dropped
+        })
+    }
+}
+
+/// The real `udp_pipe::DuplexPipe` between a mirror client side and a scripted forwarder side.
+/// `metrics(outgoing, n)` is the callback the tunnel uses for the traffic counters.
+pub async fn run_udp_pipe_scripted<F>(
+    client: (Box<dyn VUdpSource>, Box<dyn VUdpSink>),
+    peer: std::sync::Arc<dyn VUdpPeer>,
+    timeout: Duration,
+    metrics: F,
+) -> io::Result<()>
+where
+    F: Fn(bool, usize) + Send + Sync + Clone,
+{
+    use datagram_pipe::DuplexPipe as _;
+    let id = test_id(12);
+    let mut p = udp_pipe::DuplexPipe::new(
+        (
+            Box::new(UdpSourceFromV(client.0, id.clone())),
+            Box::new(UdpSinkFromV(client.1)),
+        ),
+        (
+            std::sync::Arc::new(PeerShared(peer.clone())),
+            Box::new(PeerSource(peer.clone(), id)),
+            Box::new(PeerSink(peer)),
+        ),
+        move |dir, n| metrics(dir == pipe::SimplexDirection::Outgoing, n),
+        timeout,
+    );
+    p.exchange().await
+}
